@@ -202,6 +202,7 @@ var snippets = []string{
 	"for $v in [1, 2] { $s = $v; } for $k, $v in [3] { $s = $k; }",
 	"namespace N { $a = 1; function nf() { return 2; } }",
 	"class DB<T> { public T $v; } $x = DB<int>(); $y = new DB<string>(); $z = func_num_args();",
+	"class Pr<K, V> { public K $k; } $q = new Pr<int, string>(); $p = Pr<int, string>();",
 }
 
 // whole lexemes for the pool mode of H_snip: special variables (they parse to dedicated nodes),
